@@ -192,10 +192,23 @@ class Spec:
         if isinstance(expr, ast.IfExp):
             d = self.decide(expr.test, at)
             out = []
+            # `x if x is not None else y` / `y if x is None else x`: the arm that is x itself only carries the non-None values of x
+            t = expr.test
+            tested = None
+            if isinstance(t, ast.Compare) and len(t.ops) == 1 and isinstance(t.left, ast.Name) and isinstance(t.comparators[0], ast.Constant) \
+                    and t.comparators[0].value is None and isinstance(t.ops[0], (ast.Is, ast.IsNot)):
+                tested = (t.left.id, isinstance(t.ops[0], ast.Is))
+
+            def arm(e, when_test_true):
+                res = self.sources(e, at, _depth + 1, set(_seen))
+                if tested is not None and isinstance(e, ast.Name) and e.id == tested[0]:
+                    want_none = tested[1] == when_test_true
+                    res = [(k, p) for k, p in res if not (k == "expr" and isinstance(p, ast.Constant) and (p.value is None) != want_none)]
+                return res
             if d is not False:
-                out += self.sources(expr.body, at, _depth + 1, _seen)
+                out += arm(expr.body, True)
             if d is not True:
-                out += self.sources(expr.orelse, at, _depth + 1, _seen)
+                out += arm(expr.orelse, False)
             return out
         if isinstance(expr, ast.BoolOp) and isinstance(expr.op, ast.Or):
             out = []
